@@ -315,7 +315,9 @@ def ops_alphabet (w, thorough):
   for hid in sorted(used):
     if hid in w.owners and hid < NH:
       ops.append(("unsub-handler", hid, None))
-      if thorough: ops.append(("unsub-handler", hid, "E1"))
+      # (with an explicit type only once the source has a handler list for that type: removing from a type nobody
+      #  ever subscribed to raises KeyError, which the property does not speak about)
+      if thorough and any(x.etype == "E1" for x in w.subs): ops.append(("unsub-handler", hid, "E1"))
   for j, s in enumerate(w.subs[:3]):
     for form in ("eid", "tuple", "eid+type"):
       ops.append(("unsub-token", j, form))
@@ -343,7 +345,11 @@ def apply_op (w, op):
   elif k == "unsub-handler":
     if op[2]: w.feats.add("unsub.handler+type")
     if any(s.alive and s.weak and s.hid == op[1] for s in w.subs): w.feats.add("unsub.handler.weak")
-    r, n = w.do_unsub_handler(op[1], op[2])
+    try:
+      r, n = w.do_unsub_handler(op[1], op[2])
+    except Stop: raise
+    except Exception as e:
+      w.fail("internal-error", "removeListener(handler%s) failed inside the library: %s: %s" % (", type" if op[2] else "", type(e).__name__, e))
   elif k == "unsub-token":
     w.feats.add("unsub." + op[2])
     s = w.subs[op[1]]
